@@ -3,6 +3,7 @@ package proto
 func init() {
 	vsymHarnesses["HarnessC01Tree"] = HarnessC01Tree
 	vsymHarnesses["HarnessC01Bulk"] = HarnessC01Bulk
+	vsymHarnesses["HarnessC01Wide"] = HarnessC01Wide
 }
 
 // HarnessC01Tree: serialise any value tree, compare with the reference encoding, parse it back,
@@ -64,5 +65,54 @@ func HarnessC01Bulk() {
 	vsymAssert(got.Type == BulkMessage && !got.IsNil(), "bulk-type")
 	out, _ := got.Bytes()
 	vsymAssert(refBytesEq(out, in), "payload-binary-safe")
+	vsymCover("end")
+}
+
+// HarnessC01Wide: an array of n elements of mixed types (three of them with symbolic payload, the
+// rest concrete) is serialised with the right element count, parses back to the same n values in
+// order and re-serialises to the same bytes; a second, nested copy follows it in the same stream.
+func HarnessC01Wide() {
+	n := vsymParamInt("n", 100)
+	vsymUnwind(16*n + 256)
+	mk := func(i int) *refNode {
+		switch i % 4 {
+		case 0:
+			return &refNode{typ: 3, payload: []byte{byte('a' + i%26), byte('0' + i%10)}}
+		case 1:
+			return &refNode{typ: 2, payload: refItoa(i)}
+		case 2:
+			return &refNode{typ: 0, payload: []byte{'s', byte('a' + i%26)}}
+		}
+		return &refNode{typ: 3, null: true}
+	}
+	root := &refNode{typ: 4}
+	for i := 0; i < n; i++ {
+		root.kids = append(root.kids, mk(i))
+	}
+	if n > 0 {
+		// symbolic payloads at the first, a middle and the last position
+		for _, i := range []int{0, n / 2, n - 1} {
+			root.kids[i] = &refNode{typ: 3, payload: vsymBytes("elem", 2)}
+		}
+	}
+	outer := &refNode{typ: 4, kids: []*refNode{root, {typ: 2, payload: []byte("7")}}}
+	for _, node := range []*refNode{root, outer} {
+		msg := refBuild(node)
+		enc, err := msg.RESPBytes()
+		vsymAssert(err == nil, "serialise-no-error")
+		want := refEncode(node)
+		vsymAssert(refBytesEq(enc, want), "encoding-equals-reference")
+		p := NewParserWithBytes(want)
+		got, err := p.Next()
+		vsymAssert(err == nil && got != nil, "parse-ok")
+		if err != nil || got == nil {
+			return
+		}
+		vsymAssert(refSame(got, node), "parsed-equals-original")
+		rest, err := p.Next()
+		vsymAssert(err == nil && rest == nil, "nothing-left-after-value")
+		re, err := got.RESPBytes()
+		vsymAssert(err == nil && refBytesEq(re, want), "reserialise-reproduces-input")
+	}
 	vsymCover("end")
 }
